@@ -11,6 +11,20 @@ COMMON_NOTE = ("Trusted base: Coq 8.16.1 kernel + vm_compute (no native_compute,
                "modelled, not verified. ")
 
 CLAIMED = {
+ "C07": dict(
+  text="Axiom-free theorems about a hand model of AtomSelection (coq/model/Sel.v): for all operands given as arbitrary index lists, sum / difference / "
+       "product have exactly the union / difference / intersection of the atom indices, duplicate-free and ascending; different compositions are "
+       "refused; every array of a result holds for each selected atom the value it had in the operand it came from (Forall2 over the result); slicing "
+       "applies one position list to indices and arrays; element and array-comparison selectors are exact (iff); the periodic sphere selector is the "
+       "C03 all-images theorem on position-centre and the periodic box selector is proved sound and complete for atoms stored in any image (box_exact); "
+       "accepted selection strings give duplicate-free selections, a bare element / 'El.i' select what they say. Tied to the code by correspondence "
+       "(operators, chains, slicing, selectors, selection strings generated from the documented grammar incl. 'Si.1-3,5', spheres and boxes with atoms, "
+       "cell_indices and order) and by exact brute-force oracles (absolute and scaled coordinates).",
+  note="The regex tokenisation of selection strings is not modelled (strings are generated from item ASTs). Python set iteration order for small "
+       "non-negative ints is modelled as ascending. scaled=True selectors are judged by an exact oracle only (power-of-two diagonal cells). from_bonds "
+       "belongs to C04. Five defects were found by this check and repaired (fix: d99a714, edacb80, 6c4ad3d, 21c00f6, deff7bf).",
+  technique="Coq proof (lists over Z, no axioms) of a hand model + differential correspondence (vm_compute) + exact oracles",
+  design="§8 C07"),
  "C06": dict(
   text="Axiom-free theorems about a hand model of AtomsCollection (coq/model/Coll.v) in which every array cell carries the id of the structure "
        "it was created for: the alignment invariant (row k of every array belongs to structure k or is padding; counts agree) is preserved by "
